@@ -241,6 +241,13 @@ func decodeID(raw json.RawMessage) (ID, error) {
 	return MakeID(v)
 }
 
+// DecodeID decodes a raw JSON value that names a request by its id, such as the
+// "requestId" member of a cancellation notification, exactly like the "id"
+// member of a message.
+func DecodeID(raw json.RawMessage) (ID, error) {
+	return decodeID(raw)
+}
+
 func marshalToRaw(obj any) (json.RawMessage, error) {
 	if obj == nil {
 		return nil, nil
